@@ -98,6 +98,74 @@ def buffered_view(rng, adocs, keys):
     return cases
 
 
+def neighbours(run, rng, n):
+    """Several indexes (index names, also one that begins like another) in one storage: each keeps exactly its own
+    documents through the others' merges, optimisations and file clean-ups; searchers held on earlier generations
+    keep theirs."""
+    import shutil
+    import tempfile
+    from whoosh import fields
+    from whoosh.filedb.filestore import FileStorage, RamStorage
+    cases = []
+    for i in range(n):
+        names = rng.choice([["MAIN", "second"], ["MAIN", "MAIN_x"], ["a", "a_1", "a_1_b"], ["x", "x_toc"]])
+        cfg = {"scenario": "several indexes in one storage", "names": names, "storage": ["file", "ram"][i % 2],
+               "compound": i % 3 != 2}
+        d = tempfile.mkdtemp(prefix="verif-nb-") if cfg["storage"] == "file" else None
+        obs = []
+        try:
+            st = FileStorage(d) if d else RamStorage()
+            schema = fields.Schema(key=fields.ID(stored=True, unique=True), body=fields.TEXT, n=fields.NUMERIC(sortable=True))
+            ixs = [st.create_index(schema, indexname=nm) for nm in names]
+            model = [set() for _ in names]
+            held = []
+            for rnd in range(rng.randrange(3, 6)):
+                for j, ix in enumerate(ixs):
+                    w = ix.writer(**({} if cfg["compound"] else {"compound": False}))
+                    before = sorted(model[j])
+                    touched = set()
+                    for num in rng.sample(range(6), rng.randrange(1, 3)):      # (each key once per session)
+                        k = u"%s-%d" % (names[j], num)
+                        w.update_document(key=k, body=u"xx " + k, n=rnd)
+                        model[j].add(k)
+                        touched.add(k)
+                    # (a deletion reaches committed documents only: one that this session did not touch)
+                    cands = [k for k in before if k not in touched]
+                    if cands and rng.random() < 0.3:
+                        k = rng.choice(cands)
+                        w.delete_by_term("key", k)
+                        model[j].discard(k)
+                    m = rng.random()
+                    w.commit(optimize=m < 0.3, merge=m < 0.7)
+                    # (held searchers over loose segment files open them lazily: a recorded finding of C03)
+                    if cfg["compound"] and rng.random() < 0.3:
+                        held.append((j, set(model[j]), ix.searcher()))
+            for j, nm in enumerate(names):
+                with st.open_index(indexname=nm).searcher() as s:
+                    got = sorted(dd["key"] for dd in s.documents())
+                    obs.append({"kind": "flag", "path": "index %r of %r holds exactly its own documents" % (nm, names),
+                                "value": got == sorted(model[j])})
+            ok = True
+            for j, want, s in held:
+                try:
+                    ok = ok and sorted(dd["key"] for dd in s.documents()) == sorted(want) \
+                        and sorted(h["key"] for h in s.search(__import__("whoosh").query.Every(), limit=None, sortedby="n")
+                                   ) == sorted(want)
+                finally:
+                    s.close()
+            obs.append({"kind": "flag", "path": "searchers held on earlier generations of %r keep their documents" % (names,),
+                        "value": ok})
+        except Exception as ex:
+            obs.append({"kind": "error", "path": "several indexes in one storage", "err": type(ex).__name__,
+                        "msg": str(ex)[:160], "where": content.where(ex)})
+        finally:
+            if d:
+                shutil.rmtree(d, ignore_errors=True)
+        run.count(len(obs))
+        cases.append({"idx": {"docs": []}, "obs": obs, "cfg": cfg, "plan": None, "adocs": None})
+    return cases
+
+
 def check(run):
     quick = run.tier == "quick"
     rng = random.Random(run.seed + 1818)
@@ -284,6 +352,7 @@ def check(run):
                               "cfg": cfg, "plan": plan, "adocs": adocs})
         finally:
             w.close()
+    cases += neighbours(run, rng, 4 if quick else 24)
     rejects = content.judge(run, cases)
     content.report(run, "c18", cases, rejects)
     run.extra["configurations"] = len(cases)
